@@ -32,7 +32,10 @@ UDPOR_OK = ("lock", "unlock", "acq", "rel", "put", "get", "puta", "geta", "wait"
 def key_of(kind, cfg, prog):
     """case key = violated clause + checker configuration (seed dropped) + the kinds of operations the program uses"""
     import re
-    return "C38 %s cfg=%s uses=%s" % (kind, re.sub(r"uniform\d+", "uniform", cfg), mcprogs.features(prog))
+    cfg = re.sub(r"uniform\d+", "uniform", cfg)
+    if "uniform" in cfg:   # the uniform strategy loses executions on every kind of program: one class per clause and configuration
+        return "C38 %s cfg=%s" % (kind, cfg)
+    return "C38 %s cfg=%s uses=%s" % (kind, cfg, mcprogs.features(prog))
 
 def _job(item):
     """one program under every configuration"""
@@ -48,7 +51,7 @@ def _job(item):
         if name.startswith("udpor") and not udpor_able:
             continue
         failing = ref_dl or ref_as
-        r = smc.run(binary, pfile, idx, cfg, workdir, "%s-%d" % (pid, os.getpid()), max_errors=1000 if failing else 0)
+        r = smc.run(binary, pfile, idx, cfg, workdir, "%s-%d" % (pid, os.getpid()), max_errors=0)  # default: the checker stops at its first report
         out["runs"] += 1
         out["traces"][name] = r["traces"]
         if r["timeout"]:
@@ -61,10 +64,12 @@ def _job(item):
             out["problems"].append((name, "crash", "simgrid-mc exit code %s: %s" % (r["rc"], r["out"][-300:].replace("\n", " / "))))
             continue
         rep_as = r["rc"] == 1 or "PROPERTY NOT VALID" in r["out"]
-        if r["deadlock"] != ref_dl:
-            out["problems"].append((name, "deadlock-verdict", "checker %s a deadlock, reference says one is %s" % ("reports" if r["deadlock"] else "does not report", "reachable" if ref_dl else "unreachable")))
-        if rep_as != ref_as:
-            out["problems"].append((name, "assertion-verdict", "checker %s an assertion failure, reference says one is %s" % ("reports" if rep_as else "does not report", "reachable" if ref_as else "unreachable")))
+        if r["deadlock"] and not ref_dl:
+            out["problems"].append((name, "spurious-deadlock", "checker reports a deadlock, the reference has no reachable deadlock"))
+        if rep_as and not ref_as:
+            out["problems"].append((name, "spurious-assertion-failure", "checker reports an assertion failure, the reference has none reachable"))
+        if failing and not (r["deadlock"] or rep_as):
+            out["problems"].append((name, "missed-failure", "checker reports nothing, the reference has a reachable %s" % ("deadlock" if ref_dl else "assertion failure")))
         if not name.startswith("udpor"):
             got = set(c for c in r["terminals"] if "ASSERTFAIL" not in c)
             # a checker may stop at its first report: on failing programs only soundness (no unknown outcome) is required
